@@ -287,16 +287,23 @@ def pick(allh, prof, seed):
     return take + vlib.sample(b, n - len(take), seed)
 
 
+# Names are opaque strings to the service: validateChannelNames and the name index compare
+# them exactly, ValidateName accepts ^[a-zA-Z_][a-zA-Z0-9_]*$. A pair that differs only in
+# letter case is therefore two distinct valid names (create of the twin succeeds, rename to
+# the twin is a real rename that both stores must apply).
+TWINS = '{"Na","na"}'
+
+
 def gen_profiles(thorough):
     allk = '{"index","fixed","variable","virtual","free","calc","badtype"}'
     opts = '{"plain","retrieve","overwrite"}'
     p = []
     # bounded-exhaustive (BFS): every behaviour of the small alphabet
     p.append(dict(name="bfs2", mode="bfs", sample=None if thorough else 500,
-                  consts=dict(MaxReq=2, MaxRestart=1), depth=2))
+                  consts=dict(BaseName=TWINS, MaxReq=2, MaxRestart=1), depth=2))
     p.append(dict(name="bfs_del", mode="bfs", sample=6000 if thorough else 350,
                   consts=dict(Node="{1,2}", BaseName='{"a"}', Kinds='{"index","virtual","free"}',
-                              Types='{"create","delete","rename"}', ExtraName='{"b"}', MaxReq=3), depth=3))
+                              Types='{"create","delete","rename"}', ExtraName='{"A"}', MaxReq=3), depth=3))
     # every engine-backed kind created and deleted (fixed- and variable-density data, index)
     for nm, kinds in (("bfs_fixed", '{"index","fixed"}'), ("bfs_variable", '{"index","variable"}')):
         p.append(dict(name=nm, mode="bfs", sample=2500 if thorough else 300,
@@ -311,11 +318,11 @@ def gen_profiles(thorough):
                   consts=dict(Node="{1}", BaseName='{"a"}', Kinds='{"index"}', Types='{"create","delete"}',
                               MaxReq=5, MaxRestart=1), depth=5))
     p.append(dict(name="bfs_rename_restart", mode="bfs", sample=None,
-                  consts=dict(Node="{1,2}" if thorough else "{1}", BaseName='{"a","b"}', Kinds='{"index","virtual"}',
+                  consts=dict(Node="{1,2}" if thorough else "{1}", BaseName=TWINS, Kinds='{"index","virtual"}',
                               Types='{"create","rename"}', MaxReq=3, MaxRestart=1), depth=3))
     # free channels renamed through either node, bootstrapper restarts in between
     p.append(dict(name="bfs_free_rename", mode="bfs", sample=1500 if thorough else 150,
-                  consts=dict(Node="{1,2}", BaseName='{"a"}', ExtraName='{"b"}', Kinds='{"free"}',
+                  consts=dict(Node="{1,2}", BaseName='{"a"}', ExtraName='{"A"}', Kinds='{"free"}',
                               Types='{"create","rename"}', MaxReq=4, MaxRestart=1), depth=4))
     # renames that must be REFUSED after valid entries of the same batch: an internal channel
     # (allowInternal=false), a key that is not a channel any more; batches mixing leaseholders
@@ -326,7 +333,7 @@ def gen_profiles(thorough):
                   consts=dict(Node="{1}", BaseName='{"a","b"}', ExtraName='{"c"}', Kinds='{"virtual"}',
                               Types='{"create","delete","rename"}', MaxBatch=2, MaxReq=3), depth=3))
     p.append(dict(name="sim_rename", mode="sim", num=2500 if thorough else 500,
-                  consts=dict(Node="{1,2}", BaseName='{"a","b"}', Kinds='{"index","virtual"}',
+                  consts=dict(Node="{1,2}", BaseName='{"a","b"}', ExtraName='{"A"}', Kinds='{"index","virtual"}',
                               MaxBatch=2, MaxReq=5, MaxCtr=24, CtlRename="TRUE"), depth=5))
     # two CreateMany calls inside one caller transaction
     p.append(dict(name="bfs_chain", mode="bfs", sample=3000 if thorough else 200,
@@ -335,7 +342,7 @@ def gen_profiles(thorough):
                               Chain="TRUE", MaxReq=2), depth=2))
     # wide random walks
     p.append(dict(name="sim3", mode="sim", num=2500 if thorough else 400,
-                  consts=dict(Node="{1,2,3}", BaseName='{"a","b","c"}', ExtraName='{"a_time"}', Kinds=allk,
+                  consts=dict(Node="{1,2,3}", BaseName='{"a","b","A"}', ExtraName='{"a_time"}', Kinds=allk,
                               Opts=opts, MaxBatch=2, MaxReq=5, MaxCtr=24, MaxRestart=1, Chain="TRUE", CtlRename="TRUE"),
                   depth=5))
     p.append(dict(name="sim2", mode="sim", num=2500 if thorough else 400,
